@@ -36,7 +36,7 @@ LAYOUTS = {
 }
 
 
-def build(n_services, transport, internal=False, P=P):
+def build(n_services, transport, internal=False, P=P, subsvc=False):
     Q = lambda n: f'.{P}.{n}'
     msgs = [message('Resp', [field('ok', 1, 'bool')])]
     lay = list(LAYOUTS)
@@ -57,8 +57,32 @@ def build(n_services, transport, internal=False, P=P):
             meths.append(method(rpc, Q(rq), Q('Resp') if ri % 4 else EMPTY, http=http, cs=cs, ss=ss))
             table.setdefault(sname, {})[rpc] = dict(layout=layout, fields=[x[0] for x in LAYOUTS[layout]],
                                                     required=[x[0] for x in LAYOUTS[layout] if x[2]])
+        if si == 0:
+            # an RPC whose request is a plain-protobuf message of a dependency package with message-typed fields
+            from google.iam.v1 import iam_policy_pb2
+            from google.api import field_behavior_pb2
+            d = iam_policy_pb2.SetIamPolicyRequest.DESCRIPTOR
+            meths.append(method('SetIamPolicy', '.google.iam.v1.SetIamPolicyRequest', '.google.iam.v1.Policy',
+                                http=('post', '/v1/{resource=alphas/*}:setIamPolicy', '*')))
+            table[sname]['SetIamPolicy'] = dict(layout='dep-package-request', fields=[f_.name for f_ in d.fields],
+                                                required=[f_.name for f_ in d.fields if field_behavior_pb2.REQUIRED in
+                                                          f_.GetOptions().Extensions[field_behavior_pb2.field_behavior]])
         svcs.append(service(sname, meths))
     f = file(P.replace('.', '/') + '/meta.proto', P, messages=msgs, services=svcs)
+    files = [f]
+    fixup_only = {}
+    if subsvc:
+        # a service declared in a proto sub-package: its RPCs belong in the fix-up table like any other
+        sp = P + '.deepsea'
+        # (the file declares no message of its own: a message in a sub-package next to root-package files is D18)
+        fs = file(P.replace('.', '/') + '/deepsea/deepsea.proto', sp,
+                  services=[service('Anglerfish', [method('TrackLure', Q('TrackLureRequest'), Q('Resp'),
+                                                          http=('post', '/v1/lures:track', '*'))])])
+        msgs.append(message('TrackLureRequest', [field('depth', 1, 'int32'), field('name', 2, 'string', required=True)]))
+        f.message_type.add().CopyFrom(msgs[-1])
+        fs.dependency.extend(desc.std_dep_names(['google.iam.v1.iam_policy_pb2']) + [f.name])
+        files.append(fs)
+        fixup_only['TrackLure'] = dict(layout='subpackage-service', fields=['depth', 'name'], required=['name'])
     param = f'transport={transport},metadata,autogen-snippets=false'
     of = None
     listed = None
@@ -69,9 +93,9 @@ def build(n_services, transport, internal=False, P=P):
                 '          generate_omitted_as_internal: true\n          methods:\n' + ''.join(f'          - {m}\n' for m in listed))
         param += ',service-yaml=@svc.yaml@'
         of = {'svc.yaml': yaml}
-    req = request([f], param)
+    req = request(files, param, extra_dep_modules=['google.iam.v1.iam_policy_pb2'])
     desc.gate(req)
-    return req, of, table, listed
+    return req, of, table, listed, fixup_only
 
 
 def variants():
@@ -83,14 +107,16 @@ def variants():
     for tr in ('grpc', 'rest', 'grpc+rest'):
         yield dict(services=2, transport=tr, internal=False, package='acme.meta')
     yield dict(services=1, transport='grpc+rest', internal=True, package='acme.meta')
+    for tr in ('grpc', 'grpc+rest'):
+        yield dict(services=1, transport=tr, internal=False, subsvc=True)
 
 
 def make_job(v):
     pkg = v.get('package', P)
-    req, of, table, listed = build(v['services'], v['transport'], v['internal'], pkg)
+    req, of, table, listed, fixup_only = build(v['services'], v['transport'], v['internal'], pkg, v.get('subsvc', False))
     return dict(id=json.dumps(v, sort_keys=True), req=req.SerializeToString(), opt_files=of, probe='mc.probes.metadata',
                 keep=['*gapic_metadata.json', 'scripts/*.py'],
-                probe_args=dict(package=names.import_package(pkg)), _v=v, _table=table, _listed=listed, _pkg=pkg)
+                probe_args=dict(package=names.import_package(pkg)), _v=v, _table=table, _listed=listed, _pkg=pkg, _fixup_only=fixup_only)
 
 
 def expected_kinds(transport):
@@ -107,7 +133,8 @@ def run(ctx, only=None):
     jobs = [make_job(v) for v in vs]
     for job, res in zip(jobs, engine.run_jobs(jobs)):
         v, table, listed, P = job['_v'], job['_table'], job['_listed'], job['_pkg']
-        vid = f's{v["services"]}/{v["transport"]}/{"internal" if v["internal"] else "plain"}' + ('' if P.endswith('.v1') else '/unversioned')
+        vid = f's{v["services"]}/{v["transport"]}/{"internal" if v["internal"] else "plain"}' + ('' if P.endswith('.v1') else '/unversioned') + (
+            '/subpackage-service' if v.get('subsvc') else '')
         ctx.state(1, transitions=1 + v['internal'])
         if not res['gen']['ok']:
             ctx.violation(f'generation:{res["gen"]["etype"]}:{res["gen"]["where"]}|internal={v["internal"]}',
@@ -140,7 +167,7 @@ def run(ctx, only=None):
         if gm.get('libraryPackage') != names.import_package(P):
             bad('library-package', '-', gm.get('libraryPackage'))
         svcs = gm.get('services', {})
-        if set(svcs) != set(table):
+        if set(svcs) - set(['Anglerfish'] if v.get('subsvc') else []) != set(table):
             bad('services-listed', '-', f'{sorted(svcs)} != {sorted(table)}')
         kinds = expected_kinds(v['transport'])
         for sname, rpcs in table.items():
@@ -183,6 +210,8 @@ def run(ctx, only=None):
             for sname, rpcs in table.items():
                 for rpc, info in rpcs.items():
                     all_rpcs.setdefault(rpc, []).append(info)
+            for rpc, info in job['_fixup_only'].items():
+                all_rpcs.setdefault(rpc, []).append(info)
             for rpc, infos in all_rpcs.items():
                 keys = [k for k in m2p if k.replace('_', '').lower() == rpc.replace('_', '').lower()]
                 if len(keys) != 1:
